@@ -155,6 +155,20 @@ def check_case(cx, ln, mo, co, spec):
                 return
     elif cmd == "uinto":
         m = re.match(r"rc=0 into=(\d) chain=(\S+)$", co)
+        u = G.untok(t[3])
+        want = G.ref_split(u, False, "11111")
+        if (want is None) != (m is None):
+            cx.bad("coap_split_uri differs from the URI grammar (RFC 3986 s.3 / RFC 7252 s.6)",
+                   ln, mo, co, "grammar: %s\n" % G.show_parts(want))
+            return
+        if m and spec is not None:
+            exp = G.expected_into(want, t[2], t[1] == "1", spec)
+            got = G.parse_chain("rc=%s chain=%s" % (m.group(1), m.group(2)))[1]
+            if exp is not None and got != exp:
+                cx.bad("coap_uri_into_optlist: options differ from RFC 7252 6.4 (Uri-Host unless it "
+                       "is the destination, Uri-Port unless default, decoded path and query)",
+                       ln, mo, co, "expected: %s\n" % exp)
+                return
         if m:
             pc = G.parse_chain("rc=%s chain=%s" % (m.group(1), m.group(2)))
             nums = [n for n, _ in pc[1]]
@@ -186,6 +200,9 @@ def spec_lines(lines):
             out.append("spec_path " + t[-1])
         elif t[0] in ("uquery", "uqol"):
             out.append("spec_query " + t[-1])
+        elif t[0] == "uinto":
+            p = G.ref_split(G.untok(t[3]), False, "11111")
+            out.append("spec_pq %s %s" % (G.tok(p[3]), G.tok(p[4])) if p else "")
         else:
             out.append("")
     return out
@@ -259,6 +276,10 @@ def main(run):
                 sweep.append("upath %d %s" % (bl, h))
                 sweep.append("uquery %d %s" % (bl, h))
     run.cov["leaf_sweep"] = {"cases": len(sweep), "exhaustive": True,
+                             "also_exhaustive": "all 256 byte values through the escape tables; '%' + all "
+                             "65536 byte pairs through coap_split_path and coap_path_into_optlist; port texts "
+                             "0..66000 through coap_split_uri; all 65536 ports x 6 schemes through "
+                             "coap_uri_into_optlist; 20 scheme names x proxy flag x 6 tails",
                              "exhaustive_over": "all strings over 'a./%%2eE?#&:[' of length <= %d as "
                              "path and query (buffer 64), <= %d through the optlist functions and as "
                              "URI tails, <= 3 with every buffer size 0..7" % (n_pq, n_all)}
@@ -276,6 +297,23 @@ def main(run):
             base_lines.append("upath %d %s" % (k + 10, "61" * k))
             base_lines.append("uquery %d %s" % (k + 3, "61" * k))
             base_lines.append("upol 1 11 %s" % ("61" * k))
+    # Uri-Port decision: every port x every scheme coap_split_uri accepts (finite leaf domain)
+    if caps == "11111":
+        for sch in (b"coap", b"coaps", b"coap+tcp", b"coaps+tcp", b"coap+ws", b"coaps+ws"):
+            pre = sch + b"://h:"
+            for port in range(65536):
+                base_lines.append("uinto 1 - " + G.tok(pre + str(port).encode()))
+    # port text -> value: every number 0..66000 (finite leaf domain of the port scanner)
+    for port in range(66001):
+        base_lines.append("uspl 0 %s %s" % (caps, G.tok(b"coap://h:" + str(port).encode())))
+    # escape decoding: '%' followed by every pair of byte values, through all three decoders
+    for x in range(256):
+        for y in range(256):
+            h = "25%02x%02x" % (x, y)
+            base_lines.append("upath 8 " + h)
+            base_lines.append("upol 0 11 " + h)
+            if y % 4 == x % 4:
+                base_lines.append("uquery 8 " + h)
     # escape tables: every byte value alone and next to a neighbour
     for b in range(256):
         for cmd in ("ugetp", "ugetq"):
